@@ -21,7 +21,7 @@ PROPS = {
         "exh": [("exh-wrap", FF), ("exh-wrap", MIN)],
         "ops": [("wrap", FF, 8000, 250000), ("wrap", MIN, 3000, 60000), ("wrap9", FF, 1500, 30000)],
         "spot": ["wrap"],
-        "explanation": "theorem C01_wrap: the text is its paragraphs joined by the line ending, every paragraph is the concatenation of body+gap segments (gaps all spaces), line i is indent+body_i+pen (pen empty or one hyphen), Borrowed at the byte offset of its body when indent and pen are empty, ASCII bodies never end in a space — for any partition oracle and any valid splitter (both proved for the reference instances); the Unicode trailing-space exception clause is checked by L2 only; L2: a backtracking re-parse of every returned line as indent + slice of the text (+ inserted hyphen), slices in order, gaps only spaces/line endings, borrowed lines at their byte offset, no slice ending in a space outside the Unicode/force-break exception",
+        "explanation": "theorem C01_wrap: the text is its paragraphs joined by the line ending, every paragraph is the concatenation of body+gap segments (gaps all spaces), line i is indent+body_i+pen (pen empty or one hyphen), Borrowed at the byte offset of its body when indent and pen are empty, ASCII bodies never end in a space — for any partition oracle and any valid splitter (both proved for the reference instances); the Unicode trailing-space clause is C01_body_ends_in_space_only_if (a body ends in a space only with the Unicode separator and break_words or a custom splitter; for any oracle answering with character boundaries and never breaking between two spaces, which the harness asserts on every case); L2: a backtracking re-parse of every returned line as indent + slice of the text (+ inserted hyphen), slices in order, gaps only spaces/line endings, borrowed lines at their byte offset, no slice ending in a space outside the Unicode/force-break exception",
         "assumptions": ["custom splitters return valid character boundaries"],
     },
     "C02": {
